@@ -242,6 +242,10 @@ func bodyRep(b []byte) string {
 	return hlib.App("BSum", hlib.Z(int64(len(b))), hlib.N(hashBytes(b)), hlib.Hex(b[:16]), hlib.Hex(b[len(b)-16:]))
 }
 
+type nopLogger struct{}
+
+func (nopLogger) Printf(string, ...any) {}
+
 type obs struct {
 	term   string
 	status int
@@ -264,7 +268,7 @@ func doRequest(d desc, method string) obs {
 		req.Header.SetBytesV("Accept-Encoding", d.AE)
 	}
 	var ctx fasthttp.RequestCtx
-	ctx.Init(&req, nil, nil)
+	ctx.Init(&req, nil, nopLogger{})
 	h(&ctx)
 	// what serveConn does before writing the response
 	if ctx.IsHead() {
@@ -272,14 +276,20 @@ func doRequest(d desc, method string) obs {
 	}
 	var buf bytes.Buffer
 	bw := bufio.NewWriter(&buf)
+	// a response that cannot be written or read back (e.g. fewer body bytes than the declared length) is an
+	// observation of its own: status -1 (write failed) / -2 (not a well-framed response)
+	broken := func(code int64) obs {
+		return obs{term: hlib.App("FsObs", hlib.Z(code), hlib.Hex(nil), hlib.Z(-1), hlib.Hex(nil), hlib.Hex(nil), hlib.Hex(nil), hlib.Hex(nil),
+			hlib.Hex(nil), bodyRep(nil), hlib.None()), status: int(code)}
+	}
 	if err := ctx.Response.Write(bw); err != nil {
-		panic(fmt.Sprintf("write: %v (desc %+v)", err, d))
+		return broken(-1)
 	}
 	bw.Flush()
 	var resp fasthttp.Response
 	resp.SkipBody = method == "HEAD"
 	if err := resp.Read(bufio.NewReader(&buf)); err != nil {
-		panic(fmt.Sprintf("read back: %v (desc %+v, wire %q)", err, d, buf.Bytes()))
+		return broken(-2)
 	}
 	cl := int64(-1)
 	if v := resp.Header.Peek("Content-Length"); len(v) > 0 {
@@ -351,6 +361,6 @@ func main() {
 		Corpus:   corpus,
 		Gen:      gen,
 		Run:      run,
-		ShardLen: 150,
+		ShardLen: 300,
 	})
 }
